@@ -376,7 +376,7 @@ func startCanary() *ccCanary {
 	return c
 }
 
-var ccClasses = []string{"restart", "heldrecv", "handover", "random", "random", "overlap", "doubleclose", "random"}
+var ccClasses = []string{"restart", "heldrecv", "handover", "random", "heldrecv", "overlap", "doubleclose", "random"}
 
 type ccStats struct {
 	Classes   map[string]int `json:"classes"`
@@ -553,7 +553,8 @@ func ccScenario(rng *rand.Rand, idx int, longTO time.Duration, only string) []tr
 			}
 		}
 		if !abandoned {
-			if rng.Intn(3) != 0 { // usually wait until the receiver of connection 1 has reported at last
+			early := rng.Intn(2) == 0
+			if !early { // usually wait until the receiver of connection 1 has reported at last
 				if rest := hold + 25*time.Millisecond - time.Since(t0); rest > 0 {
 					time.Sleep(rest)
 				}
@@ -567,6 +568,17 @@ func ccScenario(rng *rand.Rand, idx int, longTO time.Duration, only string) []tr
 			call(r)
 			r++
 			call(r)
+			if early && r < 7 {
+				// the receiver of connection 1 reports only now, while the healthy connection dialled for the calls above is in
+				// use: its late report must not be taken for a loss of that connection -- the calls after it succeed on it
+				if rest := hold + 25*time.Millisecond - time.Since(t0); rest > 0 {
+					time.Sleep(rest)
+				}
+				r++
+				call(r)
+				r++
+				call(r)
+			}
 		}
 	case "handover":
 		// hand-over to the sender of the live connection: the sender of connection 1 is held just before its blocking select while
